@@ -222,8 +222,11 @@ pub fn eval(case: &Case) -> Verdict {
         let _ = std::fs::remove_file(&file);
         return v.fail("checkpoint_presence", format!("interval {}, {} iterations reached: a checkpoint file {} expected", c, reached, if j >= 1 { "was" } else { "was not" }));
     }
-    // resume in a fresh process
-    let second = match one(RunSpec { prog: p.clone(), cfg: cfg.clone(), checkpoint_file: Some(fpath.clone()), ..Default::default() }) {
+    // resume in a fresh process (a resumed run that goes on for longer than the whole uninterrupted
+    // run has already left its path: cut it off there, the comparison below reports it)
+    let mut cfg_resume = cfg.clone();
+    cfg_resume.max_permutations = Some(n + 20);
+    let second = match one(RunSpec { prog: p.clone(), cfg: cfg_resume, checkpoint_file: Some(fpath.clone()), ..Default::default() }) {
         Ok(r) => r,
         Err(x) => {
             let _ = std::fs::remove_file(&file);
